@@ -140,8 +140,12 @@ TrResolve ==
 \* CAS backends: the pointer is read again, with its ETag, right before the new version is written
 \* (a pointer that is missing or does not parse yields no version: the code then resolves by scanning,
 \*  which arrives as a separate Resolve event)
+\* on the in-memory S3 the event carries the requests the call issued: the model's step is atomic, so it must be ONE request
+OneRequest(op) == "reqs" \in DOMAIN ev => ev.reqs = <<op>>
+
 TrReadHintEtag ==
   /\ IsEv("ReadHintEtag")
+  /\ OneRequest("get_object")
   /\ IF ~ev.ok THEN hint.cls = "missing" /\ ReadEtag(A)
      ELSE IF Name(ev.name) = NoName THEN hint.cls = "garbage" /\ ReadEtag(A)
      ELSE IF Name(ev.name) \notin DOMAIN metas THEN hint = [cls |-> "name", name |-> Name(ev.name)] /\ ReadEtag(A)   \* dangling: a Resolve follows
@@ -252,6 +256,7 @@ TrFlipHint ==
   /\ IF InCreate(A)
      THEN KWriteHint(A) /\ (ev.ok <=> hint' = [cls |-> "name", name |-> MyMetaName(A)])
      ELSE /\ FlipHint(A)
+          /\ ev.cas => OneRequest("put_object")
           /\ ev.cas => Name(ev.ifmatch) = loc[A].etagName       \* the conditional PUT is keyed to the read the model recorded
           /\ ev.ok <=> (hint' = [cls |-> "name", name |-> MyMetaName(A)] /\ loc'[A].after \in {"c_finish", "c_cleanup"})
 
